@@ -17,7 +17,7 @@ RULE = ('Generated budget directories: 1-4 transaction sources with independent 
         'negate_amount/description-template settings (several sources often share the SAME format string while differing in per-source '
         'settings) + 0-2 supplemental sources; rules as .rules (transforms, variables, cross-source conditions), legacy CSV or none; '
         'rule_mode first_match/most_specific/absent/invalid; views present/absent/corrupt; documented currency formats; a source file '
-        'missing, binary garbage or a directory. `tally up` is run in-process (JSON -v, HTML report decoded with html.parser+json, '
+        'missing, binary garbage, a directory, or readable rows followed (beyond the first 8 KiB) by undecodable bytes. `tally up` is run in-process (JSON -v, HTML report decoded with html.parser+json, '
         'non-quiet summary) and on a fresh-subprocess sample. Oracle (glue validation): transactions, per-merchant counts/totals, the '
         'six flow totals and view membership must equal the composition parse_generic_csv -> analyze_transactions -> '
         'classify_by_sections computed by the harness directly from ITS OWN generated settings (never through load_config/cmd_run); every '
@@ -28,7 +28,7 @@ RULE = ('Generated budget directories: 1-4 transaction sources with independent 
         'and one of {transform, most_specific, supplemental query, decimal comma, non-comma delimiter, views}.')
 ASSUMPTIONS = ['component correctness (parse/classify/total/views) is decided by C01-C10; C11 decides that every setting reaches its component',
                'the in-process driver is re-confirmed on a fresh-subprocess sample per run']
-REQUIRED_CLASSES = ['repeated_charge_distinct_columns', 'duplicate_source_name', 'same_format_different_settings', 'source_missing_or_unreadable', 'supplemental', 'views', 'csv_rules', 'most_specific', 'decimal_comma', 'subprocess_sample']
+REQUIRED_CLASSES = ['repeated_charge_distinct_columns', 'duplicate_source_name', 'same_format_different_settings', 'source_missing_or_unreadable', 'source_fails_part_way', 'supplemental', 'views', 'csv_rules', 'most_specific', 'decimal_comma', 'subprocess_sample']
 
 case_st = st.fixed_dictionaries({'b': B.budget(), 'drop': st.integers(0, 3), 'sub': st.integers(0, 39)})
 
@@ -134,6 +134,8 @@ def check(case, stats: Stats):
                 if not any(nm in line and ('not found' in line.lower() or 'error' in line.lower()) for line in (r.out + r.err).splitlines()):
                     raise Violation(f'source {nm!r} ({i["state"]}) is not reported by `tally up`:\n{(r.out + r.err)[:1200]}', case, 'source-not-reported')
             classes.add('source_missing_or_unreadable')
+            if any(i['state'] == 'late_garbage' for i in broken):
+                classes.add('source_fails_part_way')
         # metamorphic: delete one healthy source file -> only its transactions disappear
         ok = [k for k, i in enumerate(mat['sources']) if i['state'] == 'ok']
         names = [i['src']['name'] for i in mat['sources']]
